@@ -71,7 +71,8 @@ def arrays_for(g, rng=None):
 
 def judge_pattern(args):
     """runs in a worker process: implementation side + direct property predicates; returns (failures, request lines)"""
-    from causationentropy.graph import utils as U
+    from common import ModuleEntryPoints
+    U = ModuleEntryPoints("causationentropy.graph.utils", "causationentropy.graph")     # both public paths, in turn
 
     patterns, binarize, level = args
     fails, reqs = [], []
@@ -162,10 +163,16 @@ def rand_graph(rng):
             lag = 0
         if lt is not None:
             d["link_type"] = lt
+        # numbers as they come out of NumPy code: Python floats, NumPy floats of any width, 0-d arrays, integers (all exactly k/8, k/16)
+        def nt(x):
+            t = int(rng.integers(0, 8))
+            if t >= 6 and x == int(x):
+                return int(x) if t == 6 else np.int64(int(x))
+            return [float, np.float64, np.float32, np.float16, np.array, float][t % 6](x)
         if full or rng.random() < 0.5:
-            d["val" if rng.random() < 0.7 else "cmi"] = float(rng.integers(-32, 32)) / 8
+            d["val" if rng.random() < 0.7 else "cmi"] = nt(float(rng.integers(-32, 32)) / 8)
         if full or rng.random() < 0.5:
-            d["p_value"] = float(rng.integers(0, 17)) / 16
+            d["p_value"] = nt(float(rng.integers(0, 17)) / 16)
         if lt in ("undirected", "conflicting"):
             if u == v or (u, v, lag) in used or (v, u, lag) in used:
                 continue
@@ -180,7 +187,8 @@ def rand_graph(rng):
 
 
 def check(run, driver):
-    from causationentropy.graph import utils as U
+    from common import ModuleEntryPoints
+    U = ModuleEntryPoints("causationentropy.graph.utils", "causationentropy.graph")     # both public paths, in turn
 
     run.rule = (
         "PCMCI mark patterns for 2 nodes x lags {0,1}: thorough = ALL 6^8 patterns + all 82,944 consistent ones; quick = a deterministic "
@@ -303,9 +311,9 @@ def check(run, driver):
             e = {"u": pos[a], "v": pos[b]}
             if "lag" in d: e["lag"] = d["lag"]
             if "link_type" in d: e["type"] = d["link_type"]
-            if "val" in d: e["val"] = num(d["val"])
-            if "cmi" in d: e["cmi"] = num(d["cmi"])
-            if "p_value" in d: e["p"] = num(d["p_value"])
+            if "val" in d: e["val"] = num(float(d["val"]))
+            if "cmi" in d: e["cmi"] = num(float(d["cmi"]))
+            if "p_value" in d: e["p"] = num(float(d["p_value"]))
             ine.append(e)
         meta.append(("g2p", case, P, len(nodes))); reqs.append({"op": "graph_to_pcmci", "N": len(nodes), "edges": ine})
         meta.append(("rt", case, got, None)); reqs.append({"op": "round_trips", "N": len(nodes), "edges": ine, "sem": SEM_LIST})
